@@ -61,7 +61,9 @@ func (o jsonObject) hashCode(metadata []Metadata) [8]byte {
 		keys = append(keys, k)
 	}
 	sort.Strings(keys)
-	a := make([]byte, 0, len(o)*16)
+	a := make([]byte, 0, 8+len(o)*16)
+	// Start with constant bytes so that an empty object does not hash like an empty string.
+	a = append(a, 0x00, 0x5D, 0x39, 0xA4, 0x18, 0x10, 0xEA, 0xD5) // random bytes
 	for _, k := range keys {
 		keyHash := hash([]byte(k))
 		a = append(a, keyHash[:]...)
